@@ -88,9 +88,18 @@ class GPTNeoXAssignment(WorkAssignment):
         elif set(self.pipe_parallel_peers) == set(self.data_parallel_peers):
             self.pipe_parallel_peer_group = self.data_parallel_group
         else:
-            self.pipe_parallel_peer_group = dist.new_group(
-                self.pipe_parallel_peers,
-            )
+            # torch.distributed.new_group() must be entered by every rank of
+            # the default group, with the same ranks and in the same order,
+            # so every rank creates the peer group of every pipeline stage
+            # and keeps the one of its own stage.
+            stage_peers: dict[int, list[int]] = {}
+            for r in range(topology.world_size()):
+                stage_peers.setdefault(topology.get_coord(r).pipe, []).append(r)
+            self.pipe_parallel_peer_group = None
+            for stage in sorted(stage_peers):
+                stage_group = dist.new_group(stage_peers[stage])
+                if stage == self.pipe_parallel_rank:
+                    self.pipe_parallel_peer_group = stage_group
 
         worker_loads = [0.0 for _ in self.pipe_parallel_peers]
         self._inv_assignments = {
